@@ -423,6 +423,7 @@ package ysgo
 //@               (callres0.LineStatement.Text.Elements[i].Expression != nil ==> wfExpr(callres0.LineStatement.Text.Elements[i].Expression)))
 //@       assert "fetched": callres1 ==> len(dr.kc(choice)) > 0 && dr.kc(choice)[0] == callres0 && dr.K() == dr.kc(choice)[1:]
 //@       assert "exhausted": !callres1 ==> dr.K() == dr.kc(choice)
+//@       assert "alloc-kept": forall i int :: {dr.stk()[i]} 0 <= i && i < len(dr.stk()) ==> allocated(dr.stk()[i])
 //@   }
 //@   ghost before call Push#0 { arg1.below = dr.K() }
 //@   ghost after call Push#0 {
@@ -443,6 +444,11 @@ package ysgo
 //@       assert "pop-nonnil": forall i int :: {dr.stk()[i]} 0 <= i && i < len(dr.stk()) ==> dr.stk()[i] != nil
 //@       assert "pop-lo": forall i int :: {dr.stk()[i]} 0 <= i && i < len(dr.stk()) ==> 0 <= dr.stk()[i].pointer
 //@       assert "pop-hi": forall i int :: {dr.stk()[i]} 0 <= i && i < len(dr.stk()) ==> dr.stk()[i].pointer <= len(dr.stk()[i].statements)
+//@       assert "pop-eq": len(dr.stk()) == before(len(dr.stk())) - 1 && (forall i int :: {dr.stk()[i]} 0 <= i && i < len(dr.stk()) ==> dr.stk()[i] == before(dr.stk()[i]))
+//@       assert "pop-distinct": forall i int, j int :: {dr.stk()[i], dr.stk()[j]} 0 <= i && i < j && j < len(dr.stk()) ==> dr.stk()[i] != dr.stk()[j]
+//@       assert "pop-alloc": forall i int :: {dr.stk()[i]} 0 <= i && i < len(dr.stk()) ==> allocated(dr.stk()[i])
+//@       assert "pop-first": forall i int :: {dr.stk()[i]} 0 <= i && i < len(dr.stk()) ==>
+//@           dr.stk()[i] != nil && allocated(dr.stk()[i]) && 0 <= dr.stk()[i].pointer && dr.stk()[i].pointer <= len(dr.stk()[i].statements)
 //@   }
 //@   ghost before call Next#0 { assert "resume-1": old(dr.step(choice)) == dr.step(choice) }
 //@   ghost before call Next#1 { assert "resume-2": old(dr.step(choice)) == dr.step(choice) }
